@@ -35,7 +35,8 @@ use yvcommon::shell::{FileSpec, ShellCfg, VEnv, push_event, run_shell};
 #[derive(Clone, Debug)]
 pub enum Mode {
     File,
-    Pipe { chunk: usize, schedule: Schedule },
+    /// `nonblock`: the read end has O_NONBLOCK set before the shell starts
+    Pipe { chunk: usize, schedule: Schedule, nonblock: bool },
     CmdString,
     Eval,
     Dot,
@@ -46,14 +47,14 @@ impl Mode {
     pub fn name(&self) -> String {
         match self {
             Mode::File => "sim:file".into(),
-            Mode::Pipe { chunk, schedule } => {
+            Mode::Pipe { chunk, schedule, nonblock } => {
                 let c = if *chunk == 0 { "whole".to_string() } else { chunk.to_string() };
                 let s = match schedule {
                     Schedule::Fifo => "fifo".to_string(),
                     Schedule::Random(x) => format!("rnd{x}"),
                     Schedule::Prefix(p) => format!("pre{}", p.iter().map(|x| x.to_string()).collect::<Vec<_>>().join("")),
                 };
-                format!("sim:pipe{c}:{s}")
+                format!("sim:pipe{c}{}:{s}", if *nonblock { "nb" } else { "" })
             }
             Mode::CmdString => "sim:-c".into(),
             Mode::Eval => "sim:eval".into(),
@@ -75,11 +76,25 @@ pub struct Obs {
     pub status: i32,
     pub stderr: String,
     pub stdout: String,
+    /// pipe-fed runs: largest O_NONBLOCK flag of descriptor 0's open file
+    /// description seen at a probe or after the run; -1 otherwise
+    pub nbmax: i32,
 }
 
 struct Ctx {
     ofd: Rc<RefCell<OpenFileDescription>>,
     written: Rc<Cell<usize>>,
+    nbmax: Cell<i32>,
+}
+
+fn observe_nonblocking() {
+    CTX.with(|c| {
+        if let Some(ctx) = c.borrow().as_ref() {
+            if let Ok(ofd) = ctx.ofd.try_borrow() {
+                ctx.nbmax.set(ctx.nbmax.get().max(ofd.is_nonblocking() as i32));
+            }
+        }
+    })
 }
 
 thread_local! {
@@ -108,7 +123,8 @@ fn current_offset() -> i64 {
 /// `probe [args...]`: records args, `$?` and the offset of the script/data descriptor.
 fn probe18(env: &mut VEnv, args: Vec<Field>) -> Pin<Box<dyn Future<Output = BResult> + '_>> {
     Box::pin(async move {
-        let a: Vec<String> = args.iter().map(|f| f.value.clone()).collect();
+        let a: Vec<String> = args.iter().map(|f| crate::scen::esc(&f.value)).collect();
+        observe_nonblocking();
         push_event(json!({"ev": "probe", "args": a, "st": env.exit_status.0, "off": current_offset()}));
         BResult::new(env.exit_status)
     })
@@ -134,13 +150,17 @@ const FEEDER_FD: Fd = Fd(3);
 
 /// Replaces descriptor 0 of the shell process by the read end of a new pipe
 /// and starts the feeder.
-fn install_feeder(env: &mut VEnv, state: &Rc<RefCell<SystemState>>, script: Vec<u8>, chunk: usize, written: Rc<Cell<usize>>) {
+fn install_feeder(env: &mut VEnv, state: &Rc<RefCell<SystemState>>, script: Vec<u8>, chunk: usize, nonblock: bool, written: Rc<Cell<usize>>) {
     let main_pid = env.main_pid;
     let (r, w) = env.system.pipe().expect("pipe");
     {
         let mut st = state.borrow_mut();
         let p = st.processes.get_mut(&main_pid).expect("main process");
         let rb = p.close_fd(r).expect("reader");
+        if nonblock {
+            // what a parent that used the pipe in non-blocking mode leaves behind
+            rb.open_file_description.borrow_mut().set_nonblocking(true);
+        }
         let wb = p.close_fd(w).expect("writer");
         let _old = p.set_fd(Fd::STDIN, rb);
         let mut fp = Process::with_parent_and_group(Pid(1), Pid(1));
@@ -171,7 +191,7 @@ fn install_feeder(env: &mut VEnv, state: &Rc<RefCell<SystemState>>, script: Vec<
 
 pub fn run(sc: &Scenario, mode: &Mode) -> (Obs, Vec<(usize, usize)>) {
     let script = sc.script();
-    let script_str = String::from_utf8(script.clone()).unwrap();
+    let script_str = String::from_utf8_lossy(&script).into_owned();
     let mut cfg = match mode {
         Mode::File => ShellCfg::stdin_script(&script),
         Mode::Pipe { schedule, .. } => {
@@ -201,13 +221,14 @@ pub fn run(sc: &Scenario, mode: &Mode) -> (Obs, Vec<(usize, usize)>) {
     }
     cfg.step_limit = 200_000;
     let feeder = match mode {
-        Mode::Pipe { chunk, .. } => Some((script.clone(), *chunk)),
+        Mode::Pipe { chunk, nonblock, .. } => Some((script.clone(), *chunk, *nonblock)),
         _ => None,
     };
     cfg.setup = Some(Box::new(move |env: &mut VEnv, state: &Rc<RefCell<SystemState>>| {
         let written = Rc::new(Cell::new(0usize));
-        if let Some((script, chunk)) = feeder {
-            install_feeder(env, state, script, chunk, Rc::clone(&written));
+        let piped = feeder.is_some();
+        if let Some((script, chunk, nonblock)) = feeder {
+            install_feeder(env, state, script, chunk, nonblock, Rc::clone(&written));
         }
         let ofd = {
             let st = state.borrow();
@@ -216,10 +237,16 @@ pub fn run(sc: &Scenario, mode: &Mode) -> (Obs, Vec<(usize, usize)>) {
                 .and_then(|p| p.get_fd(Fd::STDIN))
                 .map(|b| Rc::clone(&b.open_file_description))
         };
-        CTX.with(|c| *c.borrow_mut() = ofd.map(|ofd| Ctx { ofd, written }));
+        CTX.with(|c| *c.borrow_mut() = ofd.map(|ofd| Ctx { ofd, written, nbmax: Cell::new(if piped { 0 } else { -1 }) }));
         env.builtins.insert("probe", Builtin::new(Type::Mandatory, probe18));
     }));
     let r = run_shell(cfg);
+    let piped = matches!(mode, Mode::Pipe { .. });
+    if piped {
+        observe_nonblocking();
+    }
+    let nbmax = CTX.with(|c| c.borrow().as_ref().map(|x| x.nbmax.get()).unwrap_or(-1));
+    let nbmax = if piped { nbmax } else { -1 };
     CTX.with(|c| *c.borrow_mut() = None);
     let outcome = match &r.outcome {
         Outcome::Completed => "completed".to_string(),
@@ -228,7 +255,7 @@ pub fn run(sc: &Scenario, mode: &Mode) -> (Obs, Vec<(usize, usize)>) {
         Outcome::Panic(m) => format!("panic: {m}"),
     };
     let trace = events_to_trace(&r.events);
-    let obs = Obs { outcome, trace, status: r.status, stderr: r.stderr_str(), stdout: r.stdout_str() };
+    let obs = Obs { outcome, trace, status: r.status, stderr: crate::scen::esc(&r.stderr_str()), stdout: r.stdout_str(), nbmax };
     (obs, r.choices.clone())
 }
 
